@@ -34,3 +34,13 @@ func init() {
 			Old: "\t\t\tTargetID:   targetID,\n\t\t\tMetadata:   metadata,", New: "\t\t\tTargetID:   targetType,\n\t\t\tMetadata:   metadata,", Expect: "R16d:ledgerMonitor.SavedMetadata:TargetID"},
 	)
 }
+
+func init() {
+	const mon = "internal/bus/monitor.go"
+	const msg = "internal/bus/message.go"
+	addMutants(
+		Mutant{Property: "C16", Name: "revert-published-as-committed-topic", File: mon, Old: "\tl.publish(ctx, events.EventTypeRevertedTransaction,", New: "\tl.publish(ctx, events.EventTypeCommittedTransactions,", Expect: "R16d:ledgerMonitor.RevertedTransaction:topic"},
+		Mutant{Property: "C16", Name: "deleted-metadata-typed-as-saved", File: msg, Old: "\t\tType:    events.EventTypeDeletedMetadata,", New: "\t\tType:    events.EventTypeSavedMetadata,", Expect: "R16d:ledgerMonitor.DeletedMetadata:topic"},
+		Mutant{Property: "C16", Name: "event-ledger-left-empty", File: mon, Old: "\t\tnewEventSavedMetadata(SavedMetadata{\n\t\t\tLedger:     l.ledgerName,\n", New: "\t\tnewEventSavedMetadata(SavedMetadata{\n", Expect: "R16d:ledgerMonitor.SavedMetadata:topic"},
+	)
+}
